@@ -28,7 +28,8 @@ static void write_uint32(FILE *out, uint32_t value)
 
 int write_amiga(Memory *memory, FILE *out)
 {
-  uint32_t n;
+  // 64 bit so the loop ends when high_address is 0xffffffff.
+  uint64_t n;
   uint32_t length = (memory->high_address + 1) - memory->low_address;
 
   // Hunk file header.
